@@ -85,6 +85,8 @@ MODES = {
     'ArgsProp': "class NoArgs(Exception):\n    @property\n    def args(self):\n        raise RuntimeError('args')\nraise NoArgs('x')",
     'HostileGetattr': "class Closed(Exception):\n    def __getattribute__(self, k):\n        raise RuntimeError('no ' + k)\nraise Closed('x')",
     'HostileMetaName': "class Meta(type):\n    @property\n    def __name__(cls):\n        raise RuntimeError('name')\nclass Nameless(Exception, metaclass=Meta):\n    pass\nraise Nameless('x')",
+    # the failure comes after the program has consumed queued input (the instructor queued numbers)
+    'InputThenFail': "v = input('n? ')\nw = int(v) + 1\nraise ValueError('after reading ' + v)",
     'Empty': "raise Exception()", 'NonStrArg': "raise Exception(5, [1])",
     'Chained': "try:\n    1/0\nexcept ZeroDivisionError as e:\n    raise ValueError('c') from e",
     'BareRaise': "raise", 'RaiseInt': "raise 5",
@@ -183,7 +185,7 @@ def reference_outcome(code, filename='answer.py'):
     sys.stdout = io.StringIO()
     try:
         try:
-            exec(compile(code, filename, 'exec'), {'__name__': '__main__'})
+            exec(compile(code, filename, 'exec'), {'__name__': '__main__', 'input': lambda prompt='': '6'})
         finally:
             sys.stdout = saved
     except BaseException as e:   # noqa
